@@ -551,7 +551,14 @@ impl Oplog {
         info is Some && r is Ok ==> r->Ok_0 is Right,
         info is Some && r is Ok && (slot_leader(info->Some_0.data->Some_0@, 0) is Some || slot_leader(info->Some_0.data->Some_0@, 4096) is Some)
             ==> r->Ok_0->Right_0.oplog.header_bits == open_bits(info->Some_0.data->Some_0@)
-                && r->Ok_0->Right_0.infos_to_flush@.len() == 0
+                && r->Ok_0->Right_0.infos_to_flush@.len() == 0,
+        // the counters describe the entries that were accepted, so that the next entry is appended after them
+        info is Some && r is Ok && r->Ok_0->Right_0.entries is Some
+            ==> r->Ok_0->Right_0.oplog.entries_length == r->Ok_0->Right_0.entries->Some_0@.len()
+                && r->Ok_0->Right_0.oplog.entries_byte_length + 8192 <= info->Some_0.data->Some_0@.len()
+                && r->Ok_0->Right_0.oplog.entries_byte_length >= 8 * r->Ok_0->Right_0.oplog.entries_length,
+        info is Some && r is Ok && r->Ok_0->Right_0.entries is None
+            ==> r->Ok_0->Right_0.oplog.entries_length == 0 && r->Ok_0->Right_0.oplog.entries_byte_length == 0
     sub `OplogSlot::FirstHeader as usize\.\.OplogSlot::SecondHeader as usize` => `(vp_slot_value(&OplogSlot::FirstHeader) as usize)..(vp_slot_value(&OplogSlot::SecondHeader) as usize)`
     sub `OplogSlot::SecondHeader as usize\.\.OplogSlot::Entries as usize` => `(vp_slot_value(&OplogSlot::SecondHeader) as usize)..(vp_slot_value(&OplogSlot::Entries) as usize)`
     sub `OplogSlot::Entries as usize` => `(vp_slot_value(&OplogSlot::Entries) as usize)`
@@ -562,17 +569,23 @@ impl Oplog {
         invariant
             entries@.len() == partials@.len(), entries@.len() == byte_lengths@.len(),
             region0.len() <= 0xffff_ffff_ffff,
-            spec_sum_u64(byte_lengths@) + entries_buff@.len() == region0.len()
+            spec_sum_u64(byte_lengths@) + entries_buff@.len() == region0.len(),
+            forall|i: int| 0 <= i < byte_lengths@.len() ==> byte_lengths@[i] >= 8
         decreases entries_buff@.len()
     loop 2:
         invariant
             entries@.len() == partials@.len(), entries@.len() == byte_lengths@.len(),
-            spec_sum_u64(byte_lengths@) <= 0xffff_ffff_ffff
+            spec_sum_u64(byte_lengths@) <= region0.len(),
+            forall|i: int| 0 <= i < byte_lengths@.len() ==> byte_lengths@[i] >= 8
         decreases partials@.len()
+    before `outcome.oplog.entries_length = entries.len() as u64;`:
+        proof { lemma_sum_u64_lower(byte_lengths@, 8); }
     before `// Remove all trailing partial entries`:
         proof { lemma_sum_u64_nonneg(byte_lengths@); }
+    before `byte_lengths.pop();`:
+        let ghost bl1 = byte_lengths@;
     after `byte_lengths.pop();`:
-        proof { lemma_sum_u64_nonneg(byte_lengths@); }
+        proof { lemma_sum_u64_nonneg(byte_lengths@); assert(bl1.drop_last() =~= byte_lengths@); }
     before `byte_lengths.push((entries_buff.len() - res.1.len()) as u64);`:
         let ghost bl0 = byte_lengths@;
     after `byte_lengths.push((entries_buff.len() - res.1.len()) as u64);`:
